@@ -2,7 +2,7 @@
 structured skeleton  [flag? sig] seq (key val)*  recovered from MIR."""
 import rlpclass
 from common import short
-from kernel import ok_payload, same_value, strip
+from kernel import ok_payload, same_value, strip, unmut
 
 
 class Emission:
@@ -227,11 +227,17 @@ def check_framed(ctx, fn, stream_local, out_root, out_via_param):
             pl = strip(hv.a[1].get("payload_length"))
             if not (lst.k == "const" and lst.a[0] == 1):
                 problems.append("header is not a list header")
-            if not (pl.k == "call" and pl.a[0].name == "len" and pl.a[1] and same_value(pl.a[1][0], sdef)):
+            if not (pl.k == "call" and pl.a[0].name == "len" and pl.a[1] and same_value(unmut(pl.a[1][0]), unmut(sdef))):
                 problems.append("header length is not the length of the content stream: %s" % short(pl, 120))
+            else:
+                # the length is taken after the stream was completely written
+                import shapes
+                for mu in shapes.mutations(an, stream_local):
+                    if mu["bb"] == pl.site or an.cfg.reaches(pl.site, mu["bb"]):
+                        problems.append("the stream is still written (at %s) after/around the point where its length is taken" % mu["sp"])
         else:
             problems.append("header is not built in place: %s" % short(hv, 120))
-    if not (s.kind == "raw" and same_value(s.value, sdef)):
+    if not (s.kind == "raw" and same_value(unmut(s.value), unmut(sdef))):
         problems.append("second write is not the whole content stream: %s" % s)
     if h.cond is not None or s.cond is not None:
         problems.append("header/stream emission is conditional")
